@@ -52,6 +52,8 @@ def c08(ctx):
         "following the precedent of transcribing a rich pure function, every transition of the bounded graph is one "
         "implementation test per key class: the call is executed and ALL policy and history attributes of every "
         "live object are read back and compared by TLC.")
+    if not ctx.violations:
+        defaults(ctx)
 
 
 def c02(ctx):
@@ -97,3 +99,19 @@ def concurrent_read(ctx):
              "thread reads CKA_VALUE through its own session at every scheduling point of the first: always "
              "CKR_ATTRIBUTE_SENSITIVE, never a byte of the value")
     ctx.coverage["traces_validated_against_impl"] += tot["accepted"]
+
+
+def defaults(ctx):
+    """Beyond the listed properties (P11Defaults.tla): default attribute values per object class; rejections go to the notes."""
+    import random
+    from vf import walker
+    lib = build.libpath(build.build("ossl"))
+    res, g = pipeline.model_check(ctx, "P11Defaults", "defaults", {}, invariants=["Sane"], dump=True)
+    walks, cov, tot = walker.edge_cover(g, maxlen=10, rng=random.Random(ctx.seed))
+    st = pipeline.replay_validate(ctx, "defaults", "vf.drv_defaults", [lib], walks, "Trace_Defaults", {}, jobs=2)
+    for rj in st.rejected:
+        ctx.notes.append("P11Defaults (beyond the listed properties): trace rejected at %s" % rj["event"][:400])
+    ctx.coverage["beyond_listed_properties"] = dict(
+        module="P11Defaults", classes=5, executions=st.executions, accepted=st.accepted,
+        what="attribute values after C_CreateObject with the smallest template of each class (data, X.509 certificate, RSA "
+             "public / private key, AES key) against one table")
